@@ -83,6 +83,10 @@ class Model:
     char2 = False
     units = ()
     trusted = ()
+    const_hyps = ()
+
+    def c_scalar(self, rng):
+        return rng.randrange(1, self.p)
 
     def struct_fields(self, mir, ty):
         """field names (declaration order) of `module::ty`, read off an
@@ -606,4 +610,289 @@ def models():
     k1 = Weierstrass("secp256k1", "secp256k1", PK1, 0, c(7), 7)
     jqe = JacobiQuartic("jq255e", "jq255e", P255E, 0, -2)
     jqs = JacobiQuartic("jq255s", "jq255s", P255S, -1, pow(2, -1, P255S))
-    return {m.name: m for m in (ed25519, ed448, p256, k1, jqe, jqs)}
+    return {m.name: m for m in (ed25519, ed448, p256, k1, jqe, jqs, GLS254())}
+
+
+# ==========================================================================
+# GLS254: y^2 + x*y = x^3 + a*x^2 + b*x over GF(2^254) = GF(2^127)[u]/(u^2+u+1),
+# a = u, b = sb^2 = 1 + z^54.  Group elements are the points P + N, P in E[r],
+# N = (0,0); the group law is  A (+) B = A + B + N;  coordinates (x, s) with
+# s = y + x^2 + a*x + b, satisfying s^2 + x*s = (x^2 + a*x + b)^2;
+# representation x = sb*X/Z, s = sb*S/Z^2, T = X*Z.   (eprint 2022/1325)
+# Symbolically we use the scaled affine coordinates xi = x/sb, si = s/sb.
+
+M127 = (1 << 127) | (1 << 63) | 1
+
+
+def _clmul(a, b):
+    r = 0
+    while b:
+        if b & 1:
+            r ^= a
+        a <<= 1
+        b >>= 1
+    return r
+
+
+def _red127(v):
+    while v.bit_length() > 127:
+        v ^= M127 << (v.bit_length() - 128)
+    return v
+
+
+def f127_mul(a, b):
+    return _red127(_clmul(a, b))
+
+
+def f127_inv(a):
+    # extended Euclid in GF(2)[z]
+    if a == 0:
+        raise ZeroDivisionError
+    r0, r1 = M127, a
+    s0, s1 = 0, 1
+    while r1 != 1:
+        d = r0.bit_length() - r1.bit_length()
+        if d < 0:
+            r0, r1, s0, s1 = r1, r0, s1, s0
+            continue
+        r0 ^= r1 << d
+        s0 ^= s1 << d
+        if r0 == 0:
+            raise ZeroDivisionError
+        if r0.bit_length() < r1.bit_length():
+            r0, r1, s0, s1 = r1, r0, s1, s0
+    return _red127(s1)
+
+
+class F254:
+    """element a0 + a1*u, packed as a0 | a1 << 128 (matches the byte encoding)"""
+    MASK = (1 << 128) - 1
+
+    @staticmethod
+    def split(v):
+        return v & F254.MASK, v >> 128
+
+    @staticmethod
+    def pack(a0, a1):
+        return a0 | (a1 << 128)
+
+    @staticmethod
+    def mul(x, y):
+        a0, a1 = F254.split(x)
+        b0, b1 = F254.split(y)
+        m00, m11 = f127_mul(a0, b0), f127_mul(a1, b1)
+        mx = f127_mul(a0 ^ a1, b0 ^ b1)
+        return F254.pack(m00 ^ m11, mx ^ m00)
+
+    @staticmethod
+    def inv(x):
+        a0, a1 = F254.split(x)
+        n = f127_mul(a0, a0) ^ f127_mul(a0, a1) ^ f127_mul(a1, a1)
+        ni = f127_inv(n)
+        return F254.pack(f127_mul(a0 ^ a1, ni), f127_mul(a1, ni))
+
+
+class GLS254(Model):
+    family = "gls"
+    char2 = True
+    name = "gls254"
+    module = "gls254"
+    coords = ["X", "S", "Z", "T"]
+    const_relations = []
+    p = 2  # characteristic; only used for gcd checks
+
+    def __init__(self):
+        self.u, self.sb = S("u"), S("sb")
+        self.a = self.u
+        self.b = self.sb * self.sb
+        self.const_hyps = [self.u * self.u + self.u + 1]
+        self.base = None      # set from the library's Point::BASE at run time
+        self.trusted = ("x(A)*x(B) != b for group elements A = P+N, B = Q+N (it would need A -+ B = N, but "
+                        "N is not in E[r]); in particular x(A)^2 != b (eprint 2022/1325, completeness)",
+                        "adding N = (0,0): (x,y) + N = (b/x, b*(y+x)/x^2) (checked as spec lemma)")
+        # concrete constants
+        self.cU = F254.pack(0, 1)
+        self.cSB = (1 << 27) | 1
+        self.cB = (1 << 54) | 1
+
+    # ---- symbolic ----
+    def curve(self, xi, si):
+        q = self.sb * xi * xi + self.u * xi + self.sb
+        return si * si + xi * si + q * q
+
+    def generic(self, tag):
+        xi, si, z = S("x" + tag), S("s" + tag), S("z" + tag)
+        return Affine((xi, si), [self.curve(xi, si)], [z], z, label="generic")
+
+    def neutral(self, tag):
+        z = S("z" + tag)
+        return Affine((R.ZERO, self.sb), [], [z], z, neutral=True, label="neutral")
+
+    def like(self, tag, other, negate=False):
+        xi, si = other.xy
+        z = S("z" + tag)
+        return Affine((xi, (si + xi if negate else si)), [], [z], z, label=("-" if negate else "") + "same")
+
+    def embed(self, A):
+        xi, si = A.xy
+        z = A.z
+        return [xi * z, si * z * z, z, xi * z * z]
+
+    def neg(self, A):
+        xi, si = A.xy
+        return (xi, si + xi)
+
+    def xy(self, P):
+        """curve coordinates (x, y) of the scaled affine (xi, si)"""
+        xi, si = P
+        return self.sb * xi, self.sb * (si + self.sb * xi * xi + self.u * xi + self.sb)
+
+    def _yD_scaled(self, out):
+        """Z3^2 * y(D) / ... : sb*S3 + b*X3^2 + a*sb*X3*Z3 + b*Z3^2  (= y(D)*Z3^2)"""
+        X, Sx, Z, T = out
+        return self.sb * Sx + self.b * X * X + self.a * self.sb * X * Z + self.b * Z * Z
+
+    def rel_add(self, out, P, Q):
+        """A, B, -(D+N) collinear and x(D+N) = chord x, D the output point; x1 != x2"""
+        X, Sx, Z, T = out
+        (x1, y1), (x2, y2) = self.xy(P), self.xy(Q)
+        dC = (x1 + x2) * (x1 + x2)
+        nC = (y1 + y2) * (y1 + y2) + (y1 + y2) * (x1 + x2) + (self.a + x1 + x2) * dC
+        return [("x(D+N) = x(A+B)", X * nC + self.sb * dC * Z),
+                ("A, B, -(D+N) collinear",
+                 (self._yD_scaled(out) + y1 * X * X) * (x1 + x2) + (y1 + y2) * (self.sb * X * Z + x1 * X * X)),
+                ("T=X*Z", T + X * Z)]
+
+    def rel_double(self, out, P):
+        X, Sx, Z, T = out
+        x1, y1 = self.xy(P)
+        mm = x1 * x1 + self.b + y1
+        nC = mm * mm + mm * x1 + self.a * x1 * x1
+        return [("x(D+N) = x(2A)", X * nC + self.sb * x1 * x1 * Z),
+                ("-(D+N) on the tangent at A",
+                 (self._yD_scaled(out) + y1 * X * X) * x1 + mm * (self.sb * X * Z + x1 * X * X)),
+                ("T=X*Z", T + X * Z)]
+
+    def rel_neutral(self, out):
+        X, Sx, Z, T = out
+        return [("X=0", X), ("S=sb*Z^2", Sx + self.sb * Z * Z), ("T=0", T)]
+
+    def proportional(self, out, F):
+        X, Sx, Z, T = out
+        return [("X:Z", X * F[2] + F[0] * Z), ("S:Z^2", Sx * F[2] * F[2] + F[1] * Z * Z), ("T=X*Z", T + X * Z)]
+
+    def same_element(self, A, B):
+        return [("X:Z", A[0] * B[2] + B[0] * A[2]), ("S:Z^2", A[1] * B[2] * B[2] + B[1] * A[2] * A[2])]
+
+    def validity(self, out):
+        return [("T=X*Z", out[3] + out[0] * out[2])]
+
+    def oncurve(self, out):
+        X, Sx, Z, T = out
+        q = self.sb * X * X + self.u * X * Z + self.sb * Z * Z
+        return Sx * Sx + X * Sx * Z + q * q
+
+    def spec_lemmas(self):
+        """chord(P, N) = (b/x, b*(y+x)/x^2) on the curve (x,y), x != 0"""
+        x, y = S("x"), S("y")
+        h = y * y + x * y + x * x * x + self.a * x * x + self.b * x
+        # lambda = y/x ; x' = l^2 + l + a + x ; y' = l*(x + x') + x' + y (with P2 = N: l*(0 + x') + x' + 0)
+        # x' * x^2 = y^2 + x*y + a*x^2 + x^3  must equal b*x ; y' = (l+1)*x' = (y+x)/x * b/x
+        return [("x(P+N)*x = b", (y * y + x * y + self.a * x * x + x * x * x) + self.b * x, [h])]
+
+    # ---- concrete: curve points (x, y) / None, group elements given as (x, s) ----
+    def c_mul(self, *xs):
+        r = xs[0]
+        for v in xs[1:]:
+            r = F254.mul(r, v)
+        return r
+
+    def _y_of(self, x, s):
+        return s ^ F254.mul(x, x) ^ F254.mul(self.cU, x) ^ self.cB
+
+    def _s_of(self, x, y):
+        return y ^ F254.mul(x, x) ^ F254.mul(self.cU, x) ^ self.cB
+
+    def _w_oncurve(self, P):
+        if P is None:
+            return True
+        x, y = P
+        lhs = F254.mul(y, y) ^ F254.mul(x, y)
+        x2 = F254.mul(x, x)
+        rhs = F254.mul(x2, x) ^ F254.mul(self.cU, x2) ^ F254.mul(self.cB, x)
+        return lhs == rhs
+
+    def _w_add(self, P, Q):
+        if P is None:
+            return Q
+        if Q is None:
+            return P
+        (x1, y1), (x2, y2) = P, Q
+        if x1 == x2:
+            if y2 == (y1 ^ x1):
+                return None
+            l = F254.mul(F254.mul(x1, x1) ^ self.cB ^ y1, F254.inv(x1))
+        else:
+            l = F254.mul(y1 ^ y2, F254.inv(x1 ^ x2))
+        x3 = F254.mul(l, l) ^ l ^ self.cU ^ x1 ^ x2
+        y3 = F254.mul(l, x1 ^ x3) ^ x3 ^ y1
+        return (x3, y3)
+
+    def _to_w(self, P):
+        x, s = P
+        return (x, self._y_of(x, s))
+
+    def _from_w(self, W):
+        if W is None:
+            raise ValueError("point at infinity is not a group element")
+        return (W[0], self._s_of(*W))
+
+    def c_neutral(self):
+        return (0, self.cB)
+
+    def c_oncurve(self, P):
+        return self._w_oncurve(self._to_w(P))
+
+    def c_add(self, P, Q):
+        return self._from_w(self._w_add(self._w_add(self._to_w(P), self._to_w(Q)), (0, 0)))
+
+    def c_neg(self, P):
+        return (P[0], P[1] ^ P[0])
+
+    def c_rand(self, rng):
+        if self.base is None:
+            raise ValueError("GLS254 base point not set")
+        k = rng.randrange(2, 1 << 14)
+        g0 = self._w_add(self._to_w(self.base), (0, 0))       # in E[r]
+        acc = None
+        for bit in bin(k)[2:]:
+            acc = self._w_add(acc, acc)
+            if bit == "1":
+                acc = self._w_add(acc, g0)
+        return self._from_w(self._w_add(acc, (0, 0)))
+
+    def c_special(self):
+        return [("neutral", self.c_neutral())]
+
+    def c_scalar(self, rng):
+        return F254.pack(rng.getrandbits(127), rng.getrandbits(127)) or 1
+
+    def c_embed(self, P, z):
+        x, s = P
+        isb = F254.inv(self.cSB)
+        X = self.c_mul(x, z, isb)
+        Sx = self.c_mul(s, z, z, isb)
+        return [X, Sx, z, F254.mul(X, z)]
+
+    def c_decode(self, f):
+        X, Sx, Z, T = f
+        if Z == 0:
+            return None, False
+        zi = F254.inv(Z)
+        x = self.c_mul(self.cSB, X, zi)
+        s = self.c_mul(self.cSB, Sx, zi, zi)
+        P = (x, s)
+        return P, (self.c_oncurve(P) and T == F254.mul(X, Z))
+
+    def c_same(self, P, Q):
+        return P is not None and Q is not None and P[0] == Q[0] and P[1] == Q[1]
